@@ -120,3 +120,23 @@ def app_run(configfile, outbase, startdate='2022-04-21', duration=1000., seed=1,
             '--scdata', 'False', '--overwrite', str(bool(overwrite))] + [str(x) for x in extra]
     with stubbed_orbit([(t0 + a, t0 + b) for a, b in saa], [(t0 + a, t0 + b) for a, b in occ]), contextlib.redirect_stdout(io.StringIO()):
         return app.xpobssim(**app.PARSER.parse_args(argv).__dict__)
+
+
+# ---------------------------------------------------------------------------------------------------------------------------------------
+# Photon lists (the `xpphotonlist` flavour of the simulation: `rvs_photon_list` + `xPhotonList.write_fits`), with a synthetic GTI list
+def photon_list(roi_model, outfile, du_id=1, seed=1, gtis=None, duration=1000., argv=()):
+    """one detector unit of the xpphotonlist loop; returns (outfile, kwargs)"""
+    from ixpeobssim.bin.xpphotonlist import PARSER
+    from ixpeobssim.evt.gti import xGTIList
+    from ixpeobssim.irf import load_irf_set
+    from ixpeobssim.utils.time_ import string_to_met_utc
+    kwargs = PARSER.parse_args(['--configfile', 'verif.py', '--duration', repr(float(duration))] + [str(x) for x in argv]).__dict__
+    start = string_to_met_utc(kwargs['startdate'], lazy=True)
+    stop = start + kwargs['duration']
+    gl = [(start + a, start + b) for a, b in (gtis or [(0., duration)])]
+    kwargs.update(start_met=start, stop_met=stop, scdata=False, gti_list=xGTIList(start, stop, *gl), outfile=outfile)
+    numpy.random.seed(seed + du_id - 1)
+    irf_set = load_irf_set(kwargs['irfname'], du_id)
+    pl = roi_model.rvs_photon_list(irf_set, **kwargs)
+    pl.write_fits('verif', roi_model, irf_set, **kwargs)
+    return outfile, kwargs
